@@ -135,7 +135,26 @@ pub fn render(rel: &Relation) -> String {
     shim(&q)
 }
 
+/// an infinite float is written `inf` by the library (Rust's Display), which no SQL engine reads; SQLite's spelling of infinity is 9e999.
+/// (That the library writes `inf` at all is reported by the streams that judge the text, not hidden here.)
+pub fn shim_inf(sql: &str) -> String {
+    let b: Vec<char> = sql.chars().collect();
+    let mut out = String::with_capacity(sql.len());
+    let (mut i, mut q1, mut q2) = (0usize, false, false);
+    while i < b.len() {
+        let c = b[i];
+        if c == '\'' && !q2 { q1 = !q1; } else if c == '"' && !q1 { q2 = !q2; }
+        if !q1 && !q2 && c == 'i' && i + 2 < b.len() + 0 && b[i + 1] == 'n' && b.get(i + 2) == Some(&'f')
+            && (i == 0 || !(b[i - 1].is_alphanumeric() || b[i - 1] == '_')) && b.get(i + 3).map_or(true, |n| !(n.is_alphanumeric() || *n == '_')) {
+            out.push_str("9e999"); i += 3; continue;
+        }
+        out.push(c); i += 1;
+    }
+    out
+}
+
 pub fn shim(sql: &str) -> String {
+    let sql_owned = shim_inf(sql); let sql: &str = &sql_owned;
     // `(VALUES (1), (2)) AS "v" ("v")`  ->  `(SELECT column1 AS "v" FROM (VALUES (1), (2))) AS "v"`  (SQLite has no derived-table column lists)
     let mut out = String::new();
     let mut rest = sql;
